@@ -55,7 +55,11 @@ func genCase(t *rapid.T, withInvalid bool) *Case {
 	c.Ops = rapid.SliceOfN(rapid.Custom(func(t *rapid.T) Op {
 		switch k := rapid.SampledFrom(kinds).Draw(t, "op"); k {
 		case "update":
-			return Op{K: k, Opts: genOptions(t)}
+			op := Op{K: k, Opts: genOptions(t)}
+			if rapid.IntRange(0, 2).Draw(t, "flip") == 0 {
+				op.Flip, op.Nth = rapid.IntRange(1, 4).Draw(t, "flipE"), rapid.IntRange(0, 3).Draw(t, "flipWait")
+			}
+			return op
 		case "bad":
 			return Op{K: k, Opts: genOptions(t), Bad: rapid.SampledFrom([]string{"nodefault", "empty-existing", "empty-new", "nil-options", "dialfail", "dialfail"}).Draw(t, "bad"), Nth: rapid.IntRange(0, 3).Draw(t, "nth")}
 		case "rpc":
